@@ -2,6 +2,8 @@ import Cdecao.Engine.Core
 import Cdecao.Engine.Term
 import Cdecao.Engine.Final
 import Cdecao.Engine.Account
+import Cdecao.Proofs.CaobabFinite
+import Cdecao.Engine.Terminate
 /-! # C04 — the parallel search always terminates and accounts for every subproblem once -/
 namespace Props
 open Eng3
@@ -202,6 +204,233 @@ theorem C04_run_bound_reach {root : ν} {top T : Nat} {c : Cfg ν σ} :
     Reach root top T c ↔ ∃ evs, Run (init root top T) evs c :=
   reach_iff_run
 
+/-! ### the budget exists for caobab: the search tree of every instance is finite
+
+The hypothesis `Budget W` of the work bounds above is discharged for the caobab node solver
+(`N2.solverOf I R`, Proofs/NodeEng.lean), for **every** instance `I` and room arithmetic `R` — no
+validity hypothesis: every child of an infeasible verdict is strictly smaller in the measure
+`N2.mu I B` (`N2.node_prog`), so the child relation is well-founded, `N2.treeSize I R n` (the number
+of nodes of the tree below `n`, by well-founded recursion; `N2.treeSize_eq`) is well defined and
+`W n = 5 * N2.treeSize I R n` is a budget (Proofs/CaobabFinite.lean). -/
+
+/-- no infinite branch in the caobab search tree -/
+theorem C04_caobab_wf (I : N2.Inst) (R : N2.RoomFns) :
+    letI := N2.solverOf I R
+    WellFounded (fun k n : N2.Node => k ∈ pushed n) :=
+  N2.pushed_wf I R
+
+/-- the size of the tree below a node: one for the node plus the sizes below its pushed children -/
+theorem C04_caobab_treeSize (I : N2.Inst) (R : N2.RoomFns) (n : N2.Node) :
+    letI := N2.solverOf I R
+    N2.treeSize I R n = 1 + ((pushed n).map (N2.treeSize I R)).sum :=
+  N2.treeSize_eq I R n
+
+/-- **the caobab search tree is finite**: a budget exists for every instance, namely
+    `5 * treeSize` -/
+theorem C04_caobab_budget (I : N2.Inst) (R : N2.RoomFns) :
+    letI := N2.solverOf I R
+    (∃ W : N2.Node → Nat, Budget W) ∧ Budget (fun n : N2.Node => 5 * N2.treeSize I R n) :=
+  ⟨N2.caobab_budget I R, N2.caobab_budget_treeSize I R⟩
+
+set_option linter.style.haveILetI false in
+/-- **work bound for caobab, unconditionally**: every run of the engine on the caobab node solver
+    from the root node — every thread count `T`, every schedule — with at most `s` wake events
+    takes at most `5 * treeSize + 3 * T + 3 * (T * T + s)` steps that are not wake-ups, and has at
+    most that many plus `s` events in all -/
+theorem C04_caobab_run_bound (I : N2.Inst) (R : N2.RoomFns) {top T s : Nat} :
+    letI := N2.solverOf I R
+    ∀ {c : Cfg N2.Node (List (Option Nat))} {evs : List Ev},
+      Run (init N2.rootNode top T) evs c → wakeEvents evs ≤ s →
+      work evs ≤ 5 * N2.treeSize I R N2.rootNode + 3 * T + 3 * (T * T + s) ∧
+      evs.length ≤ 5 * N2.treeSize I R N2.rootNode + 3 * T + 3 * (T * T + s) + s := by
+  letI := N2.solverOf I R
+  intro c evs h hs
+  exact ⟨N2.caobab_run_bound I R h hs, N2.caobab_run_length I R h hs⟩
+
+set_option linter.style.haveILetI false in
+/-- at most `treeSize I R rootNode` subproblems are ever generated (ghost list and counter) -/
+theorem C04_caobab_gen_bound (I : N2.Inst) (R : N2.RoomFns) {top T : Nat} :
+    letI := N2.solverOf I R
+    ∀ {c : Cfg N2.Node (List (Option Nat))} {st : Stats} {g : Ghost N2.Node},
+      ReachG N2.rootNode top T (c, st, g) →
+      g.gen.length ≤ N2.treeSize I R N2.rootNode ∧ st.gen ≤ N2.treeSize I R N2.rootNode := by
+  letI := N2.solverOf I R
+  intro c st g h
+  exact N2.caobab_gen_bound I R h
+
+/-- non-vacuity: the three-node tree of the F1 witness has `treeSize = 3`, so with one thread and
+    no wake-up every run takes at most `15 + 3 + 3 = 21` steps -/
+example (R : N2.RoomFns) : 5 * N2.treeSize N2.exI R N2.rootNode + 3 * 1 + 3 * (1 * 1 + 0) = 21 := by
+  rw [N2.exI_treeSize R]
+/-! ### termination (Engine/Terminate.lean)
+
+"Once spurious wake-ups stop, the search finishes within an explicit number of steps, whatever the
+scheduler does."  `c` is any configuration reached from the start by a run `evs0` with at most `s`
+`wake` events; the tree is finite (`Budget W`); `T ≥ 1`.  The `wake t` event of the model stands for
+a `notify_one` as well as for a spurious wake-up — it does not say which; `C04_terminates_notify` and
+`C04_terminates_spurious` separate the two with a ghost layer (`NStep`/`NRun`: every `wake` event is
+tagged as using up one earlier `notify_one`, or as spurious). -/
+
+/-- (1) every continuation of `c` without `wake` events has at most
+    `W root + 3 * T + 3 * (T * T + s)` events (together with the non-wake events before `c`) -/
+theorem C04_terminates_bound (W : ν → Nat) (hW : Budget W) {root : ν} {top T s : Nat}
+    {c c' : Cfg ν σ} {evs0 evs : List Ev} (h0 : Run (init root top T) evs0 c)
+    (hs : wakeEvents evs0 ≤ s) (h : Run c evs c') (hwf : ∀ ev ∈ evs, ev.isWake = false) :
+    evs.length ≤ W root + 3 * T + 3 * (T * T + s) ∧
+    work evs0 + evs.length + Psi W c' ≤ W root + 3 * T + 3 * (T * T + s) :=
+  ⟨wakefree_bound W hW h0 hs h hwf, wakefree_bound_strong W hW h0 hs h hwf⟩
+
+/-- (1) relative to `c` alone, reachable or not: at most `Psi W c + 3 * T * (T - stopped c)` events -/
+theorem C04_terminates_bound_local (W : ν → Nat) (hW : Budget W) {T : Nat} {c c' : Cfg ν σ}
+    {evs : List Ev} (h : Run c evs c') (hT : c.pcs.length = T)
+    (hwf : ∀ ev ∈ evs, ev.isWake = false) :
+    evs.length + Psi W c' ≤ Psi W c + 3 * (T * (T - stopped c)) :=
+  wakefree_bound_local W hW h hT hwf
+
+/-- (2) a run can only stop in a finished configuration: in a reachable configuration "no
+    non-wake event is enabled" is the same as "every worker has stopped"; and then no event at all
+    is enabled -/
+theorem C04_terminates_maximal {root : ν} {top T : Nat} {c : Cfg ν σ} (hT : 0 < T)
+    (hr : Reach root top T c) :
+    ((∀ ev, ev.isWake = false → step? c ev = none) ↔ AllFinished c) ∧
+    (AllFinished c → ∀ ev, step? c ev = none) :=
+  ⟨wakefree_maximal_iff hT hr, finished_no_step⟩
+
+/-- (3) **termination**: some continuation of `c` without `wake` events ends with every worker
+    stopped, within `W root + 3 * T + 3 * (T * T + s)` steps; and every continuation without `wake`
+    events can be extended to such a one, the whole within the same bound — no scheduler choice
+    among the non-wake events avoids termination -/
+theorem C04_terminates (W : ν → Nat) (hW : Budget W) {root : ν} {top T s : Nat} {c : Cfg ν σ}
+    {evs0 : List Ev} (hT : 0 < T) (h0 : Run (init root top T) evs0 c) (hs : wakeEvents evs0 ≤ s) :
+    (∃ (evs : List Ev) (c' : Cfg ν σ), Run c evs c' ∧ (∀ ev ∈ evs, ev.isWake = false) ∧
+        AllFinished c' ∧ evs.length ≤ W root + 3 * T + 3 * (T * T + s)) ∧
+    (∀ (evs : List Ev) (c' : Cfg ν σ), Run c evs c' → (∀ ev ∈ evs, ev.isWake = false) →
+      ∃ (evs' : List Ev) (c'' : Cfg ν σ), Run c' evs' c'' ∧ (∀ ev ∈ evs', ev.isWake = false) ∧
+        AllFinished c'' ∧ evs.length + evs'.length ≤ W root + 3 * T + 3 * (T * T + s)) :=
+  terminates W hW hT h0 hs
+
+/-- (3) for `Reach` -/
+theorem C04_terminates_reach (W : ν → Nat) (hW : Budget W) {root : ν} {top T : Nat} {c : Cfg ν σ}
+    (hT : 0 < T) (hr : Reach root top T c) :
+    ∃ (evs : List Ev) (c' : Cfg ν σ), Run c evs c' ∧ (∀ ev ∈ evs, ev.isWake = false) ∧
+      AllFinished c' :=
+  terminates_reach W hW hT hr
+
+/-- (3) step by step: along a continuation without `wake` events, either the search has finished
+    and nothing is enabled, or a non-wake event is enabled and the bound is not used up -/
+theorem C04_terminates_progress (W : ν → Nat) (hW : Budget W) {root : ν} {top T s : Nat}
+    {c c' : Cfg ν σ} {evs0 evs : List Ev} (hT : 0 < T) (h0 : Run (init root top T) evs0 c)
+    (hs : wakeEvents evs0 ≤ s) (h : Run c evs c') (hwf : ∀ ev ∈ evs, ev.isWake = false) :
+    (AllFinished c' ∧ ∀ ev, step? c' ev = none) ∨
+    (∃ ev c'', ev.isWake = false ∧ step? c' ev = some c'' ∧
+      evs.length < W root + 3 * T + 3 * (T * T + s)) :=
+  wakefree_progress W hW hT h0 hs h hwf
+
+/-- (4) with `wake` events in the continuation: at most `s'` of them allow at most
+    `W root + 3 * T + 3 * (T * T + (s + s'))` non-wake events -/
+theorem C04_terminates_wakes (W : ν → Nat) (hW : Budget W) {root : ν} {top T s s' : Nat}
+    {c c' : Cfg ν σ} {evs0 evs : List Ev} (h0 : Run (init root top T) evs0 c)
+    (hs : wakeEvents evs0 ≤ s) (h : Run c evs c') (hs' : wakeEvents evs ≤ s') :
+    work evs0 + work evs + Psi W c' ≤ W root + 3 * T + 3 * (T * T + (s + s')) :=
+  continuation_bound W hW h0 hs h hs'
+
+/-- (4) a run can only be infinite if it contains infinitely many `wake` events -/
+theorem C04_terminates_infinite (W : ν → Nat) (hW : Budget W) {root : ν} {top T : Nat}
+    {f : Nat → Cfg ν σ} {e : Nat → Ev} (hr : Reach root top T (f 0))
+    (h : ∀ i, step? (f i) (e i) = some (f (i + 1))) :
+    ∀ N, ∃ i, N ≤ i ∧ (e i).isWake = true :=
+  infinite_run_wakes W hW hr h
+
+/-- (4) with the wake-ups attributed (ghost layer `NRun`, counter of unused `notify_one` calls
+    starting at 0): the `wake` events caused by `notify_one` are fewer than `W root / 5`; a run with
+    at most `sp` spurious wake-ups has at most `W root + 3 * T + 3 * (T * T + (sp + W root / 5))`
+    non-wake events and at most `sp + W root / 5` more events in total -/
+theorem C04_terminates_notify (W : ν → Nat) (hW : Budget W) {root : ν} {top T sp k' : Nat}
+    {c : Cfg ν σ} {l : List (Ev × Bool)} (h : NRun (init root top T) 0 l c k')
+    (hsp : spurious l ≤ sp) :
+    5 * (notifiedWakes l + 1) ≤ W root ∧
+    work (untag l) ≤ W root + 3 * T + 3 * (T * T + (sp + W root / 5)) ∧
+    l.length ≤ W root + 3 * T + 3 * (T * T + (sp + W root / 5)) + (sp + W root / 5) :=
+  nrun_bound W hW h hsp
+
+/-- (4) **a run with finitely many spurious wake-ups is finite**: an infinite run from the start
+    contains infinitely many spurious wake-ups -/
+theorem C04_terminates_spurious (W : ν → Nat) (hW : Budget W) {root : ν} {top T : Nat}
+    {f : Nat → Cfg ν σ} {k : Nat → Nat} {e : Nat → Ev × Bool} (hf : f 0 = init root top T)
+    (hk : k 0 = 0) (h : ∀ i, NStep (f i) (k i) (e i) (f (i + 1)) (k (i + 1))) :
+    ∀ N, ∃ i, N ≤ i ∧ (e i).1.isWake = true ∧ (e i).2 = false :=
+  infinite_run_spurious W hW hf hk h
+
+/-- termination without failures: if no subproblem below the root panics, the finished
+    configuration of (3) is `AllDone` and `solve` returns normally -/
+theorem C04_terminates_done (W : ν → Nat) (hW : Budget W) {root : ν} {top T s : Nat}
+    {c : Cfg ν σ} {evs0 : List Ev} (hT : 0 < T) (h0 : Run (init root top T) evs0 c)
+    (hs : wakeEvents evs0 ≤ s) (hnp : ∀ n, Desc n root → isPanic (Solver.res n) = false) :
+    ∀ (evs : List Ev) (c' : Cfg ν σ), Run c evs c' → (∀ ev ∈ evs, ev.isWake = false) →
+      ∃ (evs' : List Ev) (c'' : Cfg ν σ), Run c' evs' c'' ∧ (∀ ev ∈ evs', ev.isWake = false) ∧
+        AllDone c'' ∧ evs.length + evs'.length ≤ W root + 3 * T + 3 * (T * T + s) ∧
+        outcome c''.pcs = some false :=
+  terminates_done W hW hT h0 hs hnp
+
+/-- **total correctness of the engine**: finite tree, no failing subproblem, bound property, `T ≥ 1`:
+    every continuation without `wake` events extends within the bound to a configuration in which
+    all workers have returned, `solve` returns normally, and the incumbent is a solution of the
+    tree that no feasible node of the tree beats (termination + `C09_final`) -/
+theorem C04_terminates_optimal (W : ν → Nat) (hW : Budget W) {root : ν} {top T s : Nat}
+    {c : Cfg ν σ} {evs0 : List Ev} (hT : 0 < T) (h0 : Run (init root top T) evs0 c)
+    (hs : wakeEvents evs0 ≤ s) (hnp : ∀ n, Desc n root → isPanic (Solver.res n) = false)
+    (hb : Bounded root) (htop : ∀ f sc, Desc f root → IsFeas f sc → sc ≤ top) :
+    ∀ (evs : List Ev) (c' : Cfg ν σ), Run c evs c' → (∀ ev ∈ evs, ev.isWake = false) →
+      ∃ (evs' : List Ev) (c'' : Cfg ν σ), Run c' evs' c'' ∧ (∀ ev ∈ evs', ev.isWake = false) ∧
+        AllDone c'' ∧ evs.length + evs'.length ≤ W root + 3 * T + 3 * (T * T + s) ∧
+        outcome c''.pcs = some false ∧
+        (∀ f sc, Desc f root → IsFeas f sc → c''.best ≠ none ∧ sc ≤ c''.bestScore) ∧
+        (c''.best = none ∨
+          (∃ f sol, Desc f root ∧ Solver.res f = .feasible sol c''.bestScore ∧ c''.best = some sol)) := by
+  intro evs c' h hwf
+  obtain ⟨evs', c'', h', hwf', hd, hle, hout⟩ := terminates_done W hW hT h0 hs hnp evs c' h hwf
+  have hr'' : Reach root top T c'' := reach_iff_run.2 ⟨_, (h0.append h).append h'⟩
+  obtain ⟨a, b⟩ := C09_final hT hb htop hr'' hd
+  exact ⟨evs', c'', h', hwf', hd, hle, hout, a, b⟩
+
+/-! ### termination of caobab::solve, unconditionally
+
+`C04_terminates` with the budget `5 * treeSize` that exists for every instance
+(`C04_caobab_budget`): no hypothesis on the instance, the room arithmetic, the number of workers
+(≥ 1) or the schedule. -/
+
+set_option linter.style.haveILetI false in
+/-- **caobab always terminates**: from every configuration the engine reaches on the caobab node
+    solver (after any history with at most `s` wake events) there is a continuation without
+    wake-ups to a configuration in which all workers have stopped, within
+    `5 * treeSize + 3T + 3(T² + s)` steps; and every continuation without wake-ups can be extended
+    to such a one within the same bound -/
+theorem C04_caobab_terminates (I : N2.Inst) (R : N2.RoomFns) {top T s : Nat} (hT : 0 < T) :
+    letI := N2.solverOf I R
+    ∀ {c : Cfg N2.Node (List (Option Nat))} {evs0 : List Ev},
+      Run (init N2.rootNode top T) evs0 c → wakeEvents evs0 ≤ s →
+      (∃ (evs : List Ev) (c' : Cfg N2.Node (List (Option Nat))), Run c evs c' ∧
+          (∀ ev ∈ evs, ev.isWake = false) ∧ AllFinished c' ∧
+          evs.length ≤ 5 * N2.treeSize I R N2.rootNode + 3 * T + 3 * (T * T + s)) ∧
+      (∀ (evs : List Ev) (c' : Cfg N2.Node (List (Option Nat))), Run c evs c' →
+        (∀ ev ∈ evs, ev.isWake = false) →
+        ∃ (evs' : List Ev) (c'' : Cfg N2.Node (List (Option Nat))), Run c' evs' c'' ∧
+          (∀ ev ∈ evs', ev.isWake = false) ∧ AllFinished c'' ∧
+          evs.length + evs'.length ≤ 5 * N2.treeSize I R N2.rootNode + 3 * T + 3 * (T * T + s)) := by
+  letI := N2.solverOf I R
+  intro c evs0 h0 hs
+  exact C04_terminates (fun n : N2.Node => 5 * N2.treeSize I R n) (N2.caobab_budget_treeSize I R) hT h0 hs
+
+set_option linter.style.haveILetI false in
+/-- an infinite run of the engine on the caobab node solver contains infinitely many wake-ups -/
+theorem C04_caobab_no_infinite_run (I : N2.Inst) (R : N2.RoomFns) {top T : Nat} :
+    letI := N2.solverOf I R
+    ∀ (f : Nat → Cfg N2.Node (List (Option Nat))) (e : Nat → Ev),
+      Reach N2.rootNode top T (f 0) → InfRun f e → ∀ N, ∃ i, N ≤ i ∧ (e i).isWake = true := by
+  letI := N2.solverOf I R
+  intro f e hr h
+  exact infinite_run_wakes (fun n : N2.Node => 5 * N2.treeSize I R n) (N2.caobab_budget_treeSize I R) hr h
+
 #print axioms C04_exactly_once
 #print axioms C04_exactly_once_at_done
 #print axioms C04_exactly_once_at_finished
@@ -212,5 +441,23 @@ theorem C04_run_bound_reach {root : ν} {top T : Nat} {c : Cfg ν σ} :
 #print axioms C04_run_bound_gen
 #print axioms C04_run_bound
 #print axioms C04_run_bound_init
+#print axioms C04_caobab_wf
+#print axioms C04_caobab_budget
+#print axioms C04_caobab_run_bound
+#print axioms C04_caobab_gen_bound
+#print axioms C04_terminates_bound
+#print axioms C04_terminates_bound_local
+#print axioms C04_terminates_maximal
+#print axioms C04_terminates
+#print axioms C04_terminates_reach
+#print axioms C04_terminates_progress
+#print axioms C04_terminates_wakes
+#print axioms C04_terminates_infinite
+#print axioms C04_terminates_notify
+#print axioms C04_terminates_spurious
+#print axioms C04_terminates_done
+#print axioms C04_terminates_optimal
+#print axioms C04_caobab_terminates
+#print axioms C04_caobab_no_infinite_run
 
 end Props
